@@ -13,10 +13,19 @@ size, count and nesting — behind every prefix `q`:
     absent tags read as zero with size 0 (`absent_reads_zero`).
 Both table forms are covered by the same statements: the proofs split on `isBigList`/`isBigMessage`,
 i.e. on both sides of 255/256 elements, tags 255/256 and offsets 65535/65536.
-PARTIAL: `writer_refines_layout` (the writer state machine emits `encList`/`encMsg` of the children)
-is not yet a theorem; it is checked on every generated program by the drivers.
+`writer_refines_layout`: the writer state machine of Writer/Model.lean + Writer/Api.lean (the model
+the differential stream compares with the Go writer call by call), driven by the API program of ANY
+value tree (`compRoot`: nested Field/Element/List/Message/End calls with the handle numbering of the
+line protocol; any width, any depth, any write order, any initial buffer content), answers `ok` to
+every call and returns exactly `enc` of the tree — `encList`/`encMsg` of the encoded children — from
+the final Build (Lemmas/WriterRefine.lean, Lemmas/WriterProgram.lean: mutual induction over trees).
+`written_tree_reads_back` composes the two halves: what the writer builds for a well-formed tree is
+accepted by the parser with exactly its size and delimited exactly by the probe and `OpenValue`.
+Raw copies (Any/Copy/Merge) enter the tree as leaves (`Any`) or through `copyMsg`, which the stream
+covers (no theorem about Copy/Merge).
 -/
 import SpecVerif.Lemmas.ValidParse
+import SpecVerif.Lemmas.WriterTree
 namespace SpecVerif.C01
 open SpecVerif Pinned
 
@@ -111,7 +120,29 @@ theorem absent_reads_zero (F : FloatOps) :
     decodeBin64 [] = .ok ([], 0) := by
   refine ⟨rfl, rfl, rfl, rfl, rfl, rfl, rfl, rfl, rfl, rfl, rfl, rfl, rfl⟩
 
+/-- the writer emits the layout: every call of the tree's program is answered `ok`, the final Build
+returns `enc` of the tree and records it as the built value -/
+theorem writer_refines_layout (n : Writer.Node) (buf : Bytes) :
+    Writer.BuiltLast (Writer.run (Writer.compRoot n) buf) n.enc :=
+  Writer.run_compRoot n buf
+
+/-- write then read: the bytes the writer builds for a well-formed tree parse with exactly their
+size and are delimited exactly, behind every prefix `q` -/
+theorem written_tree_reads_back (F : FloatOps) (L : C10.FloatLaws F) (n : Writer.Node) (hn : n.OK)
+    (buf q : Bytes) :
+    ∃ b, (Writer.run (Writer.compRoot n) buf).1.built = some b ∧
+      parseValue F (2 * (q ++ b).length + 2) (q ++ b) = .ok b.length ∧ openValue (q ++ b) = .ok b :=
+  ⟨n.enc, (writer_refines_layout n buf).1, parse_exact F L n.enc (Writer.Node.valid n hn) q,
+    (probe_exact n.enc (Writer.Node.valid n hn) q).2⟩
+
 /-! ### non-vacuity: boundary instances on both sides of the table forms -/
+
+/-- a concrete nested program: message { 2: [true, {}], 1: 7 } written with tag 2 before tag 1 -/
+example :
+    Writer.compRoot (.msg (.cons 2 (.list (.cons (.leaf (encBool true)) (.cons (.msg .nil) .nil)))
+      (.cons 1 (.leaf (encByte 7)) .nil))) =
+    [.msg, .flist 0 2, .e 1 (encBool true), .emsg 1, .end_ 2, .end_ 1, .f 0 1 (encByte 7), .build 0] := by
+  rfl
 
 example : Valid (encList [encInt32 5, encString [97, 98]]) :=
   .list _ (by intro e he; simp at he; rcases he with h | h <;> subst h
